@@ -10,7 +10,8 @@ HOSTILE_OK = ['From', 'Result', 'Some', 'Ok', 'Iterator', 'Clone', 'AsRef', 'Sen
 PROP_FILE = "Props/C01.v"
 RULE = ("definitions: regression + systematic (kind x {no attr, to_string, 1-3 serialize, both} x variant flag {none,true,false} "
         "x enum flag x serialize_all) + seeded random enums (0-8 variants, disabled / default / default_with / generics / custom "
-        "error), admitted only when the model's NonOverlap predicate holds; inputs per definition are derived from its own "
+        "error), admitted only when the model's NonOverlap predicate holds (the declaration-order family apart: >20 arms with "
+        "spellings two variants accept, where the first declared answers); inputs per definition are derived from its own "
         "spellings: every spelling, case flips, one-edit neighbours, padded forms, Unicode look-alikes, spellings of disabled "
         "variants, the raw identifier, far strings. Both from_str and try_from are observed, with the payload of the result. "
         "non-trivial = distinct (definition, input) whose outcome is a variant or a default capture, or the rejection of a near "
@@ -164,6 +165,33 @@ def many_variants():
     return items
 
 
+def declaration_order():
+    """more than 20 arms, spelling lengths in no particular order, and spellings that two enabled variants both accept
+    (a case-insensitive spelling and a later exact case twin, one literal on two variants): the variant declared first
+    answers — the model's first-match — whatever the generator does to order or bucket its arms"""
+    words = ["Metre", "Kg", "Second", "Ampere", "K", "Mole", "Candela", "Hz", "Newton", "Pa", "Joule", "Watt", "Coulomb", "Volt",
+             "Farad", "Ohm", "Siemens", "Wb", "Tesla", "Henry", "Lumen", "Lux", "Becquerel", "Gray", "Sievert", "Katal", "Bar",
+             "Litre", "Tonne", "Dalton", "Neper", "Bel", "Ev", "Au", "Hectare", "Minute", "Hour", "Day", "Degree", "Arcsec"]
+    items = []
+    for n, step, phf in ((24, 2, False), (33, 3, False), (40, 2, False), (29, 2, True)):
+        vs = []
+        for i, w in enumerate(words[:n]):
+            vs.append(Variant(w, "unit", [], [aci(True, explicit=False)] if i % step == 0 else []))
+        cis = [w for i, w in enumerate(words[:n]) if i % step == 0]
+        # later variants re-declare spellings an earlier variant already accepts
+        for j in range(0, len(cis), 3):
+            grp = cis[j:j + 3]
+            ms = [ser(w.upper()) for w in grp] + [ser("legacy%d" % j)]
+            if j % 2:
+                ms.append(ser(words[j + 1]))                  # an exact literal of an earlier exact variant
+            vs.append(Variant("Legacy%d" % j, "unit", [], ms))
+        vs.append(Variant("Twin", "unit", [], [ser(cis[-1].lower()), ser(words[1]), aci(True, explicit=True)]))
+        it = Item("E", vs, metas=[EM("phf")] if phf else [])
+        it.overlap_family = True
+        items.append(it)
+    return items
+
+
 def crate_configs(tier):
     return [{"name": ID.lower()}, {"name": ID.lower() + "probe", "kind": "genprobe"}]
 
@@ -178,14 +206,14 @@ probe_command = S.struct_probe_command
 def build_corpus(tier, rng):
     c = Corpus(ID)
     thorough = tier == "thorough"
-    cands = [("regression", it) for it in regression()] + [("systematic", it) for it in systematic(rng)] + [("non-ascii-ident", it) for it in nonascii()] + [("long-spelling", it) for it in long_spellings() if not any(m.kind == "phf" for m in it.metas)] + [("many-variants", it) for it in many_variants()]
+    cands = [("regression", it) for it in regression()] + [("systematic", it) for it in systematic(rng)] + [("non-ascii-ident", it) for it in nonascii()] + [("long-spelling", it) for it in long_spellings() if not any(m.kind == "phf" for m in it.metas)] + [("many-variants", it) for it in many_variants()] + [("declaration-order", it) for it in declaration_order() if not any(m.kind == "phf" for m in it.metas)]
     for _ in range(1400 if thorough else 110):
         cands.append(("random", G.string_enum(rng)))
     infos = G.classify(ID, [it for _, it in cands])
     reals = G.real_structure(ID, [it for _, it in cands])
     rejected = 0
     for (fam, it), info, real in zip(cands, infos, reals):
-        if not admit(it, info):
+        if not admit(it, info) and not getattr(it, "overlap_family", False):
             rejected += 1
             continue
         k = c.add_def(it, family=fam, derives=["EnumString"], info=info)
